@@ -136,6 +136,16 @@ func (p *Scheduler) Run(ctx context.Context) error {
 			if p.onDestErr != nil {
 				p.onDestErr(p.proxy.GetIncomingContractID(), err)
 			}
+			select {
+			case <-proxyTask.Done():
+				if p.proxy.GetDest().String() == p.primaryDest.String() {
+					// the primary destination itself could not be reconnected: release the miner,
+					// so that it reconnects, instead of holding it unserved and retrying forever
+					p.onDisconnect()
+					return err
+				}
+			default:
+			}
 			p.logDebugf("reconnecting to primary dest %s", p.primaryDest)
 			continue
 		} else {
